@@ -228,7 +228,8 @@ def stream_prims(ctx, r, rows, pre, branch, scripts):
         k = r.below(8)
         if k <= 1:     # lang_cmp: table language against arbitrary strings
             a = r.choice(langs)
-            b = r.choice([r.choice(langs), decorate(r, r.choice(langs)), rand_text(r, r.range(0, 6)),
+            b = r.choice([r.choice(langs), decorate(r, r.choice(langs)), rand_text(r, r.range(0, 6)), a, a + "-" + rand_text(r, 2),
+                          decorate(r, a), a[:-1], a + "a",
                           with_multibyte(r, decorate(r, r.choice(langs))), with_multibyte(r, rand_text(r, r.range(0, 5)))])
             if r.chance(1, 10): a, b = b, a
             if a == "" or b == "":
@@ -242,6 +243,7 @@ def stream_prims(ctx, r, rows, pre, branch, scripts):
             s = chr(ru["first"]) + bytes(ru["s1"]).decode() + r.choice(["", "-", "hant", "xx-"]) + bytes(ru["s2"]).decode() + r.choice(["", "-x", "y"])
             if r.chance(1, 4): s = with_multibyte(r, s)
             if r.chance(1, 8): s = rand_text(r, r.range(1, 9))
+            if r.chance(1, 60): s = ""
             lines.append(f"complex {hx(s.lower())}")
         elif k == 4:   # private
             body = r.choice(["-hbot", "-hbsc", "-hbo", "hbot", "-HBOT"]) + r.choice(["", rand_alnum(r, r.range(1, 6)), "a-b", "dflt", "DfLt", "é1", "1é"])
@@ -339,6 +341,295 @@ def search_total(ctx, shim, r, rows, branch, n):
 
 
 # ----------------------------------------------------------------------------------------------
+# fonts: one feature per (script record, langsys) that names the record
+
+PROBE_A, PROBE_B, PROBE_C, PROBE_D = 1, 2, 3, 4     # GSUB regular / GSUB required / GPOS regular / GPOS required
+BASE = 5                                           # naming glyph of GSUB feature i = BASE + i
+TEXT = "e000:0,e001:1,e002:2,e003:3"
+REG_TAG = {0: "ccmp", 1: "dist"}
+
+
+def rand_langsys(r, tag, feats, table, want_req, extra_reg=True):
+    """allocate the features of one langsys in `feats` (list of feature tags of the table); returns the abstract langsys"""
+    ls = {"tag": tag, "req": None, "feats": []}
+    if extra_reg:
+        ls["feats"].append(len(feats)); feats.append(REG_TAG[table])
+    if r.chance(1, 6):                       # a second feature with another tag in front (find_language_feature must skip it)
+        ls["feats"].insert(0, len(feats)); feats.append("zzz0")
+    if want_req:
+        ls["req"] = len(feats); feats.append(r.choice(["rqd0", "rqd1", REG_TAG[table]]))
+        if r.chance(1, 12):
+            ls["req"] = len(feats) + r.range(0, 3)      # dangling required index
+    return ls
+
+
+def rand_table(r, table, script_universe, lang_universe, present_scripts=None, sort=True):
+    feats = []
+    scripts = []
+    tags = present_scripts if present_scripts is not None else [t for t in script_universe if r.chance(1, 2)]
+    for t in tags:
+        sc = {"tag": t, "dflt": None, "langs": []}
+        if r.chance(3, 4):
+            sc["dflt"] = rand_langsys(r, tg("dflt"), feats, table, r.chance(1, 3), extra_reg=r.chance(5, 6))
+        for lt in lang_universe:
+            if r.chance(2, 5):
+                sc["langs"].append(rand_langsys(r, lt, feats, table, r.chance(1, 3), extra_reg=r.chance(5, 6)))
+        if sort:
+            sc["langs"].sort(key=lambda l: l["tag"])
+        else:
+            sc["langs"] = r.shuffle(sc["langs"])
+        scripts.append(sc)
+    if sort:
+        scripts.sort(key=lambda x: x["tag"])
+    else:
+        scripts = r.shuffle(scripts)
+        if scripts and r.chance(1, 3):
+            scripts.append(dict(scripts[0]))                 # duplicate tag
+    return {"scripts": scripts, "feats": feats}
+
+
+def abstract(tb):
+    if tb is None:
+        return "-"
+    def ls(l):
+        return f"{l['tag']}.{'-' if l['req'] is None else l['req']}.{'_'.join(map(str, l['feats']))}"
+    parts = ["_".join(str(tg(f)) for f in tb["feats"])]
+    for sc in tb["scripts"]:
+        parts.append(f"{sc['tag']}:{'-' if sc['dflt'] is None else ls(sc['dflt'])}:{'+'.join(ls(l) for l in sc['langs'])}")
+    return "|".join(parts)
+
+
+def recipe_of(gsub, gpos):
+    n = BASE + max(len(gsub["feats"]) if gsub else 0, 1) + 1
+    rec = {"num_glyphs": n, "cmap": "pua"}
+    def conv(tb, table):
+        def ls(l):
+            return {"tag": untag(l["tag"]), "required": l["req"], "features": list(l["feats"])}
+        out = {"raw": True, "scripts": [], "features": [], "lookups": []}
+        for sc in tb["scripts"]:
+            out["scripts"].append({"tag": untag(sc["tag"]), "default": None if sc["dflt"] is None else ls(sc["dflt"]),
+                                   "langs": [ls(l) for l in sc["langs"]]})
+        for i, ft in enumerate(tb["feats"]):
+            out["features"].append({"tag": ft, "lookups": [i]})
+            req = ft.startswith("rqd")
+            if table == 0:
+                out["lookups"].append({"type": 1, "subtables": [{"format": 2, "coverage": [PROBE_B if req else PROBE_A],
+                                                                 "subst": [BASE + i]}]})
+            else:
+                out["lookups"].append({"type": 1, "subtables": [{"format": 1, "coverage": [PROBE_D if req else PROBE_C],
+                                                                 "value": {"xAdvance": 10 + i}}]})
+        return out
+    if gsub is not None:
+        rec["gsub"] = conv(gsub, 0)
+    if gpos is not None:
+        rec["gpos"] = conv(gpos, 1)
+    return rec
+
+
+def expected_glyphs(gsub, gpos, sel):
+    """what shape() must output for TEXT given the per-table selection `sel` = [(si, li, req)|None, ...] (model)."""
+    out = {"A": PROBE_A, "B": PROBE_B, "C": 500, "D": 500}
+    for table, tb in ((0, gsub), (1, gpos)):
+        if tb is None or sel[table] is None:
+            continue
+        si, li, req = sel[table]
+        sc = tb["scripts"][si]
+        sys = sc["dflt"] if li is None else sc["langs"][li]
+        reg = None
+        if sys is not None:
+            for fi in sys["feats"]:
+                if fi < len(tb["feats"]) and tb["feats"][fi] == REG_TAG[table]:
+                    reg = fi; break
+        # the required feature is applied whatever its tag; a regular-tagged required feature hits the regular probe
+        hits = []
+        if req is not None:
+            hits.append(req)
+        if reg is not None:
+            hits.append(reg)
+        for fi in sorted(set(hits)):                      # lookups of one stage run in lookup-index order
+            isreq = tb["feats"][fi].startswith("rqd")
+            if table == 0:
+                k = "B" if isreq else "A"
+                if out[k] in (PROBE_A, PROBE_B):
+                    out[k] = BASE + fi
+            else:
+                k = "D" if isreq else "C"
+                out[k] += 10 + fi
+    return out
+
+
+def parse_sel(tok):
+    """found,si,chosen,li,req -> (si, li, reqidx) | None"""
+    f = tok.split(",")
+    if f[1] == "-":
+        return None
+    return (int(f[1]), None if f[3] == "-" else int(f[3]), None if f[4] == "-" else int(f[4].split(":")[0]))
+
+
+SEL_SCRIPTS = ["Deva", "Beng", "Mymr", "Latn", "Arab", "Thai", "Hira", "Laoo", "Cyrl", "Khmr", "Taml", "Zzzz"]
+SEL_LANGS = ["-", "en", "ml", "zh-Hant-HK", "x-hbotabcd", "mr", "xyz", "zh-Hant-MO", "zzj", "de-x-hbscdflt", "x-hbsclatn-hbotENG"]
+MODELLED_SHAPER = {"Deva", "Beng", "Taml", "Mymr"}
+
+
+def tag_lists(shim, scripts, langs):
+    lines = [f"tags {tg(s)} {'-' if l == '-' else hx(l)}" for s in scripts for l in langs]
+    outs = vlib.run_lines(shim, lines, nproc=1)
+    res = {}
+    k = 0
+    for s in scripts:
+        for l in langs:
+            m = re.match(r"ok s:(\S+) l:(\S+)", outs[k]); k += 1
+            res[(s, l)] = ([] if not m or m.group(1) == "-" else [int(x) for x in m.group(1).split(",")],
+                           [] if not m or m.group(2) == "-" else [int(x) for x in m.group(2).split(",")])
+    return res
+
+
+def select_cases(ctx, r, shim):
+    """(gsub, gpos, script, lang, script tags, lang tags) with fonts covering every present/absent combination of the
+    candidate script tags, DFLT, dflt, latn (exhaustively for each script), langsys and required features at random."""
+    import fontbuild
+    tl = tag_lists(shim, SEL_SCRIPTS, SEL_LANGS)
+    cases = []
+    per_subset = ctx.budget(1, 6)
+    for s in SEL_SCRIPTS:
+        st0 = tl[(s, "-")][0]
+        universe = list(dict.fromkeys(st0 + [tg("DFLT"), tg("dflt"), tg("latn")]))
+        for mask in range(1 << len(universe)):
+            present = [t for i, t in enumerate(universe) if mask >> i & 1]
+            for _ in range(per_subset):
+                l = r.choice(SEL_LANGS)
+                st, lt = tl[(s, l)]
+                lang_universe = list(dict.fromkeys(lt + [tg("dflt"), tg("AAA "), tg("ZZZ ")]))
+                noise = [tg("aaaa"), tg("zzzz")] if r.chance(1, 4) else []
+                gsub = rand_table(r, 0, universe, lang_universe, present_scripts=present + noise)
+                k = r.below(4)
+                gpos = None if k == 0 else rand_table(r, 1, universe, lang_universe)
+                if r.chance(1, 10):
+                    gsub, gpos = None, rand_table(r, 1, universe, lang_universe, present_scripts=present)
+                cases.append({"gsub": gsub, "gpos": gpos, "script": s, "lang": l, "st": st, "lt": lt, "kind": "sorted"})
+    # malformed: unsorted / duplicate records (the binary search of ttf-parser is modelled as the loop it is)
+    for _ in range(ctx.budget(150, 3000)):
+        s = r.choice(SEL_SCRIPTS); l = r.choice(SEL_LANGS)
+        st, lt = tl[(s, l)]
+        universe = list(dict.fromkeys(tl[(s, "-")][0] + [tg("DFLT"), tg("dflt"), tg("latn"), tg("aaaa"), tg("zzzz")]))
+        lang_universe = list(dict.fromkeys(lt + [tg("dflt"), tg("AAA "), tg("ZZZ ")]))
+        gsub = rand_table(r, 0, universe, lang_universe, sort=False)
+        gpos = rand_table(r, 1, universe, lang_universe, sort=False) if r.chance(1, 2) else None
+        cases.append({"gsub": gsub, "gpos": gpos, "script": s, "lang": l, "st": st, "lt": lt, "kind": "unsorted"})
+    for c in cases:
+        c["hex"] = fontbuild.build(recipe_of(c["gsub"], c["gpos"])).hex()
+        c["abs"] = abstract(c["gsub"]) + "/" + abstract(c["gpos"])
+    return cases
+
+
+def stream_select(ctx, r, cases):
+    lines, kind = [], {}
+    jl = lambda v: "-" if not v else ",".join(map(str, v))
+    for c in cases:
+        for t in (0, 1):
+            st, lt = c["st"], c["lt"]
+            if r.chance(1, 5):
+                st = r.shuffle(st + [tg("DFLT")])[: r.range(0, 4)]
+            if r.chance(1, 5):
+                lt = r.shuffle(lt + [tg("dflt"), tg("AAA ")])[: r.range(0, 3)]
+            ln = f"tagsel {c['hex']} {c['abs']} {t} {jl(st)} {jl(lt)}"
+            lines.append(ln); kind[ln] = c["kind"]
+        tb = c["gsub"]
+        if tb and tb["scripts"] and r.chance(1, 2):
+            si = r.below(len(tb["scripts"]) + 1)
+            nl = len(tb["scripts"][si]["langs"]) if si < len(tb["scripts"]) else 0
+            li = "-" if r.chance(1, 2) else str(r.below(nl + 1))
+            ln = f"tagfeat {c['hex']} {c['abs']} 0 {si} {li} {tg(r.choice(['ccmp', 'zzz0', 'rqd0', 'none']))}"
+            lines.append(ln); kind[ln] = c["kind"]
+        ln = f"tagplan {c['hex']} {c['abs']} {r.below(2)} {tg(c['script'])} {'-' if c['lang'] == '-' else hx(c['lang'])}"
+        lines.append(ln); kind[ln] = c["kind"] + ":" + ("shaper" if c["script"] in MODELLED_SHAPER else "noshaper")
+
+    def canon_sel(x):
+        x = canon(x)
+        return x
+
+    def classify(ln, out):
+        t = ln.split()
+        ks = [t[0], t[0] + ":" + kind[ln].split(":")[0]]
+        if t[0] == "tagsel":
+            if out in ("notable", "nosel") or out.startswith("panic"):
+                ks.append("tagsel:" + out)
+            else:
+                f = out.split()
+                ks.append("tagsel:found" + f[0])
+                ks.append("tagsel:lang" + ("-" if f[3] == "-" else "+"))
+                ks.append("tagsel:req" + ("-" if f[4] == "-" else "+"))
+        if t[0] == "tagplan":
+            ks.append("shaper:" + out.split()[0])
+        return ks
+
+    # the model only knows the shapers of the scripts with several tag generations
+    def canon_plan(x):
+        x = canon(x)
+        f = x.split()
+        if len(f) == 3 and f[0] not in ("default", "indic", "use", "myanmar", "panic"):
+            return "other " + " ".join(f[1:])
+        return x
+    dis = []
+    plan = [l for l in lines if l.startswith("tagplan") and kind[l].endswith("noshaper")]
+    rest = [l for l in lines if not (l.startswith("tagplan") and kind[l].endswith("noshaper"))]
+    dis += ctx.correspond("tag-select", lines=rest, classify=classify, canon=canon)
+    # scripts whose shaper the model does not know: compare the selections only
+    def canon_noshaper(x):
+        x = canon(x)
+        f = x.split()
+        return "* " + " ".join(f[1:]) if len(f) == 3 else x
+    dis += ctx.correspond("tag-select", lines=plan, classify=classify, canon=canon_noshaper)
+    return dis
+
+
+def search_shape(ctx, cases):
+    """end to end: shape() substitutes / positions the probes according to the records the model selects"""
+    shim = vlib.build_harness()
+    model = vlib.build_model()
+    good = [c for c in cases if c["kind"] == "sorted"]
+    plan_lines = [f"tagplan {c['hex']} {c['abs']} 0 {tg(c['script'])} {'-' if c['lang'] == '-' else hx(c['lang'])}" for c in good]
+    plans = vlib.run_lines(model, plan_lines)
+    groups = []
+    for i, c in enumerate(good):
+        lang = "-" if c["lang"] == "-" else hx(c["lang"])
+        groups.append([f"font f{i} {c['hex']}", f"shape f{i} l {c['script']} {lang} 0 0 - - - {TEXT}", f"fontdrop f{i}"])
+    outs = vlib.run_groups(shim, groups)
+    nontriv = 0
+    bad = 0
+    dist = {}
+    for c, p, o in zip(good, plans, outs):
+        f = p.split()
+        if len(f) != 3 or p.startswith("panic"):
+            continue
+        sel = [parse_sel(f[1]), parse_sel(f[2])]
+        exp = expected_glyphs(c["gsub"], c["gpos"], sel)
+        m = o[1].split()
+        if len(m) != 6 or m[0] != "ok":
+            got = None
+        else:
+            g = [x.split(":") for x in m[2:]]
+            got = {"A": int(g[0][0]), "B": int(g[1][0]), "C": int(g[2][3]), "D": int(g[3][3])}
+        key = ("gsub:" + ("none" if sel[0] is None else ("lang" if sel[0][1] is not None else "dflt") + ("+req" if sel[0][2] is not None else "")))
+        dist[key] = dist.get(key, 0) + 1
+        if exp != {"A": PROBE_A, "B": PROBE_B, "C": 500, "D": 500}:
+            nontriv += 1
+        if got != exp:
+            bad += 1
+            if bad <= 3:
+                ctx.violation(f"shape() does not apply the features of the selected script/langsys records: script {c['script']} "
+                              f"language {c['lang']}: expected {exp}, got {got}",
+                              {"stage": "search", "stream": "select-shape", "font_hex": c["hex"], "abstract": c["abs"],
+                               "script": c["script"], "lang": c["lang"], "model_selection": p, "expected": exp,
+                               "observed": o[1]})
+    ctx.note_search("select-shape", len(good), nontriv, distribution=dist, mismatches=bad,
+                    rule="synthetic fonts (fontbuild) with one single-substitution (GSUB) / single-adjustment (GPOS) feature per "
+                         "(script record, langsys) naming the record, every present/absent combination of the candidate script "
+                         "tags + DFLT/dflt/latn per script, random langsys / required-feature layout; shape() of 4 probe glyphs "
+                         "must show exactly the features of the records the model selects; non-trivial = some probe changes")
+
+
+# ----------------------------------------------------------------------------------------------
 
 def run(ctx):
     ctx.assumptions += [
@@ -358,8 +649,11 @@ def run(ctx):
     scripts = script_constants()
     stream_tags(ctx, ctx.rng("tags"), rows, pre, branch, scripts)
     stream_prims(ctx, ctx.rng("prims"), rows, pre, branch, scripts)
+    cases = select_cases(ctx, ctx.rng("select-fonts"), shim)
+    stream_select(ctx, ctx.rng("select"), cases)
     search_registry(ctx, shim, rows)
     search_total(ctx, shim, ctx.rng("total"), rows, branch, ctx.budget(4000, 100000))
+    search_shape(ctx, cases)
 
 
 def replay(ctx, rp):
